@@ -216,8 +216,9 @@ def run(ctx):
     runs.append(dict(cfg="MC_Cluster_defect", distinct=md.distinct, generated=md.generated, depth=md.depth,
                      expected_violation="PropertyHolds"))
     if not quick:
-        mt = vf.tlc_must_pass(ctx, "MC_Cluster", "MC_Cluster_thorough.cfg", timeout=1500, workers=WORKERS, heap="14g")
-        runs.append(dict(cfg="MC_Cluster_thorough", distinct=mt.distinct, generated=mt.generated, depth=mt.depth))
+        for cfg in ("MC_Cluster_bad", "MC_Cluster_thorough"):
+            mt = vf.tlc_must_pass(ctx, "MC_Cluster", cfg + ".cfg", timeout=1500, workers=WORKERS, heap="14g")
+            runs.append(dict(cfg=cfg, distinct=mt.distinct, generated=mt.generated, depth=mt.depth))
     return _after_model(ctx, quick, rnd, binary, defect, runs)
 
 
